@@ -243,6 +243,16 @@ func runC09(ctx *Ctx) error {
 			if name == "" {
 				name = "f.txt"
 			}
+			switch r.Intn(8) {
+			case 0:
+				name = " " + name // white space at the edge of a name is part of the name
+			case 1:
+				name = "é" + name + " "
+			case 2:
+				name = "\u00a0" + name + "ø"
+			case 3:
+				name = " æ" + name
+			}
 			s.Files = append(s.Files, c09File{name, data})
 		}
 		if r.Intn(3) == 0 {
